@@ -8,7 +8,7 @@
 (* property clauses hold for it; decompression never pulls > Limit+1.      *)
 (***************************************************************************)
 EXTENDS Framing
-CONSTANTS Limit, MaxRecs, MaxChunks, Mutant, Encs, Servers, Small
+CONSTANTS Limit, MaxRecs, MaxChunks, Mutant, Encs, Servers, Small, HaveDecs
 VARIABLES recs, tail, enc, havedec, server,     \* the chosen stream and environment
           delivered, nch, eos,                   \* transport: bytes handed over so far, chunks used, END_STREAM seen
           avail, ri, ph, need, got, out, fin, pulled
@@ -27,7 +27,7 @@ Init ==
        \/ recs = body /\ tail = t
        \/ /\ Len(body) > 0 /\ t = 0 /\ tail = 0
           /\ \E r \in Truncs(body[Len(body)]) : recs = [body EXCEPT ![Len(body)] = r]
-  /\ enc \in Encs /\ havedec \in BOOLEAN /\ server \in Servers
+  /\ enc \in Encs /\ havedec \in HaveDecs /\ server \in Servers
   /\ delivered = 0 /\ nch = 0 /\ eos = FALSE
   /\ avail = 0 /\ ri = 1 /\ ph = "hdr" /\ need = 5 /\ got = 0 /\ out = <<>> /\ fin = FALSE /\ pulled = 0
 UNCH_stream == UNCHANGED <<recs, tail, enc, havedec, server>>
